@@ -19,7 +19,8 @@ class Creators:
       gfapy.error.FormatError : If the content of the line string is
         not valid
     """
-    if gfa_line is None:
+    if gfa_line is None or (isinstance(gfa_line, str) and gfa_line == ""):
+      # (nothing to add; e.g. the empty string after the final newline of a file)
       return
     if self._version == "gfa1":
       self.__add_line_GFA1(gfa_line)
